@@ -22,9 +22,9 @@ def _tier(tier):
         return dict(mc="Slashing_quick.cfg", mc_stop=900, cover="Slashing_cover.cfg", max_leaves=1500, extra_edges=700,
                     sim=("Slashing_sim.cfg", 300, 40), record_runs=150, conc_rounds=25, race=False,
                     apalache=False, per_invariant=False, inert_small=True)
-    return dict(mc="Slashing_thorough.cfg", mc_stop=1500, cover="Slashing_cover_thorough.cfg", max_leaves=12000,
-                extra_edges=8000, sim=("Slashing_sim.cfg", 4000, 60), record_runs=3000, conc_rounds=500, race=True,
-                apalache=True, per_invariant=True, inert_small=False)
+    return dict(mc="Slashing_thorough.cfg", mc_stop=1800, cover="Slashing_cover_thorough.cfg", max_leaves=12000,
+                extra_edges=8000, sim=("Slashing_sim.cfg", 4000, 60), record_runs=3000, conc_rounds=400, race=True,
+                apalache=True, per_invariant=False, inert_small=False)
 
 
 # Weaken variants: (cfg, what the weakening removes). A counterexample of the weakened spec is the schedule that
@@ -52,7 +52,7 @@ DEVIATIONS = [
     ("Slashing_fault_rempty.cfg", "stored record value is empty (code as written)"),
 ]
 CLAUSES = ["NoDoubleVote", "NoSurround", "NoDoubleBlock", "RefuseWhenUnknown"]
-BREAKS = {   # which clauses of the property each weakening breaks (measured with the thorough tier)
+BREAKS = {   # which clauses of the property each weakening breaks (measured once with all four clauses)
     "Slashing_attack_targetLT.cfg": ["NoDoubleVote"],
     "Slashing_attack_sourceNotChecked.cfg": ["NoSurround"],
     "Slashing_attack_noUpdate.cfg": ["NoDoubleVote", "NoSurround", "NoDoubleBlock"],
@@ -107,7 +107,7 @@ def _attack_runs(T):
             src = src.replace("MaxSlot = 7", "MaxSlot = 5")
         jobs.append((cfg.replace(".cfg", ""), "inert:" + desc, cfg.replace(".cfg", "_run.cfg"), src))
     # one counterexample per violated clause of the property, not only the first one TLC meets
-    # (quick: the clauses each weakening is known to break; thorough: all four, the others are exhausted)
+    # (the clauses each weakening breaks; with per_invariant all four are tried and the others exhausted)
     for cfg, desc in ATTACKS[:8] + DEVIATIONS:
         src = open(os.path.join(vlib.SPEC, cfg)).read()
         for inv in (CLAUSES if T["per_invariant"] else BREAKS[cfg]):
